@@ -102,3 +102,29 @@ From PSA Require Import Model.Webhook.
 Theorem C16_max_request_size_is_source : Gen.Constants.gen_max_request_size = max_request_size.
 Proof. exact max_request_size_is_source. Qed.
 Print Assumptions C16_max_request_size_is_source.
+
+(** ---- end to end: webhook, admission layer and the standard composed ---- *)
+From PSA Require Import Model.Shipped Spec.P05 Spec.PSS Spec.P02 Spec.PAdm Proofs.EndToEnd Proofs.C02_table.
+(** a well-formed review below the size limit for a pod request that reaches evaluation is answered
+    with 200, the review's own uid, and "allowed" exactly when the pod complies with the Pod Security
+    Standards at the enforce level and version of its namespace *)
+Theorem C16_end_to_end : forall c relax q uid r w ls p m,
+  hq_has_body q = true -> N.ltb (hq_size q) max_request_size = true ->
+  hq_ctype q = "application/json" -> hq_payload q = Review uid r w ->
+  evaluated_pod c r w = Some (ls, p) ->
+  api_valid p = true -> relaxed_for relax p = false ->
+  effective_minor (lv_version (enforce (spec_policy ls (cf_defaults c)))) = Some m ->
+  exists resp, handle c (shipped_evaluator relax) q = HttpResponse 200 (Some (uid, resp))
+               /\ rs_allowed resp = compliant (lv_level (enforce (spec_policy ls (cf_defaults c)))) m p.
+Proof. exact webhook_end_to_end_proof. Qed.
+Print Assumptions C16_end_to_end.
+
+Example C16_end_to_end_in_scope :
+  let lr := [(enforce_level_label, "restricted"); (enforce_version_label, "v1.24")] in
+  let r := Request "" "pods" "" "ns" "p" "u" OpCreate (OPod example_pod_fixed) ONil None in
+  let q := HttpRequest true 2048 "application/json" (Review "uid-7" r (World (Some lr) "" None None 0)) in
+  evaluated_pod cex_cfg r (World (Some lr) "" None None 0) = Some (lr, example_pod_fixed)
+  /\ hs_status (handle cex_cfg (shipped_evaluator false) q) = 200%Z
+  /\ option_map fst (hs_review (handle cex_cfg (shipped_evaluator false) q)) = Some "uid-7"
+  /\ option_map (fun x => rs_allowed (snd x)) (hs_review (handle cex_cfg (shipped_evaluator false) q)) = Some false.
+Proof. vm_compute. repeat split; reflexivity. Qed.
